@@ -75,7 +75,15 @@ Definition dec_steps (case i : sx) : list (option label * Z * list ev) :=
                  flat_map (fun e => opt_list (dec_ev e)) (sx_list (sx_nth (snd p) 2))))
       (combine (dec_labels case) (sx_list i)).
 
+(* the writer never goes to sleep while a request it has collected is waiting: at the park (about to park,
+   or parked) the tracker's waiting list — reported by the implementation's probe — is empty *)
+Definition no_park_while_waiting_b (i : sx) : bool :=
+  forallb (fun st => let pc_ := sx_z (sx_nth st 0) in
+                     if Z.eqb pc_ 5 || Z.eqb pc_ 6 then Z.ltb (sx_z (sx_nth st 1)) 4294967296 else true)
+          (sx_list i).
+
 Definition c04_sched_spec (case i : sx) : bool :=
+  no_park_while_waiting_b i &&
   let ls := all_labels case in
   let log := impl_events i in
   let cap_ := sx_nat (sx_arg case 0) in
